@@ -1123,6 +1123,11 @@ func (s *BgpServer) getBestFromLocalCallbackLocked(peer *peer, rfList []bgp.Fami
 	if addEOR {
 		isGREnabled := peer.isGracefulRestartEnabled()
 		for _, family := range rfList {
+			// the callers pass the configured families: a family the
+			// session did not negotiate gets no End-of-RIB marker
+			if !peer.IsFamilyEnabled(family) {
+				continue
+			}
 			// RFC 4684 6
 			// As a hint that initial RT membership exchange is complete,
 			// implementations SHOULD generate an End-of-RIB marker, as defined in
